@@ -81,6 +81,9 @@ def shorthands(trait, params, level):
         if name == "ignore" and value is True and trait in ("Debug", "PartialEq", "Eq", "PartialOrd",
                                                            "Ord", "Hash"):
             return ["%s = false" % trait]
+        if name == "ignore" and value is False and trait in ("PartialEq", "Eq", "PartialOrd", "Ord", "Hash"):
+            # the accepted opposite of the shorthand: the field takes part
+            return ["%s = true" % trait]
         if name == "name" and trait == "Debug" and isinstance(value, str):
             out = ["Debug = %s" % value]
             if not value.startswith("r#"):
